@@ -198,6 +198,9 @@ func runHistory(c HistoryCase, chk historyChecks, rec *Rec) error {
 						}
 					}
 					poolSnaps[other] = now
+					if err := lookupOwn(other, after); err != nil {
+						return fmt.Errorf("%s on pool member %d, afterwards in pool member %d: %v", where, op.A%len(pool), j, err)
+					}
 				}
 				poolSnaps[subject] = after
 			}
